@@ -99,7 +99,8 @@ def run(chk, tier):
     ev = sym.Evaluator(prog, opaque_local=[REC + "data"])
     got, fn = eval_or_blind(chk, ev, "VN", REC + "compressed")
     is_bz = lambda w: w.len >= 6 and w.bytes[4] == 0x42 and w.bytes[5] == 0x5A
-    ws = bytepred.worlds(8, {4: [0x41, 0x42, 0x5A], 5: [0x41, 0x42, 0x5A]})
+    POS = {4: [0x41, 0x42, 0x5A], 5: [0x41, 0x42, 0x5A]}
+    ws = bytepred.worlds(8, POS, got)
     if got is not None:
         try:
             bad = [(w, r) for w, r in ((w, bytepred.evalw(got, d, w)) for w in ws) if r is not is_bz(w)]
@@ -123,7 +124,7 @@ def run(chk, tier):
             out = ("mutated", "std::io::Read::read_to_end", 1, (call("bzip2::read::BzDecoder::<R>::new", src), call("alloc::vec::Vec::<T>::new")))
             return sym.res_match(rd, lambda x: ok(adt(V + "record::Record", "Record", (("0", adt(V + "record::RecordData", "Owned", (("0", out),))),))), lambda e: err(("conv", e)))
         bad, und = None, None
-        for w in ws:
+        for w in bytepred.worlds(8, POS, got):
             try:
                 r = bytepred.evalw(got, d, w)
             except (bytepred.Unknown, bytepred.Undefined) as e:
@@ -187,14 +188,21 @@ def run(chk, tier):
         d16 = cast(F("date"), "u32", "u16")
         want = cm.spec_instant(cast(d16, "u16", "i64"), 1, cast(F("time"), "u32", "i64"))
         expect(chk, "VN", HDR + "::date_time", got, want, fn.where(), "date-time = 1970-01-01 + (date - 1) days + time ms (the same closed form C08 holds the decode crate to)", key="header-date-time")
-    # chunk sniffing uses the same offsets
+    chunk_sniffing(chk, prog, ev0)
+
+
+def chunk_sniffing(chk, prog, ev0=None):
+    """Chunk::new: a start chunk iff the data begin with "AR2", else a record chunk iff bytes 4..6 are "BZ", else an error;
+    the bytes are wrapped unchanged"""
+    ev0 = ev0 or sym.Evaluator(prog)
+    is_bz = lambda w: w.len >= 6 and w.bytes[4] == 0x42 and w.bytes[5] == 0x5A
     got, fn = eval_or_blind(chk, ev0, "VN", CHUNK_NEW, [P("data")])
     if got is not None:
         dd = P("data")
         start = ok(adt("nexrad_data::aws::realtime::chunk::Chunk", "Start", (("0", adt(V + "file::File", "File", (("0", dd),))),)))
         rec = ok(adt("nexrad_data::aws::realtime::chunk::Chunk", "IntermediateOrEnd", (("0", adt(V + "record::Record", "Record", (("0", adt(V + "record::RecordData", "Owned", (("0", dd),))),))),)))
         bad_ = err(adt(ERR, "AWS", (("0", adt("nexrad_data::result::aws::AWSError", "UnrecognizedChunkFormat", ())),)))
-        wsc = bytepred.worlds(8, {0: [0x41, 0x42], 1: [0x52, 0x5A], 2: [0x32, 0x33], 4: [0x41, 0x42, 0x5A], 5: [0x41, 0x42, 0x5A]})
+        wsc = bytepred.worlds(8, {0: [0x41, 0x42], 1: [0x52, 0x5A], 2: [0x32, 0x33], 4: [0x41, 0x42, 0x5A], 5: [0x41, 0x42, 0x5A]}, got)
         is_ar2 = lambda w: w.len >= 3 and w.bytes[:3] == b"AR2"
         res = {"start": None, "record": None}
         for w in wsc:
